@@ -46,6 +46,16 @@ func (s *faultSink) Write(p []byte) (int, error) {
 	return 0, errSink
 }
 
+// byteFaultSink is the same sink seen through io.ByteWriter as well: the classic LZMA writer then hands it to the
+// range encoder directly (no bufio.Writer in between, whose error would be sticky), so that every encoder path sees
+// the failure itself and a fail-once fault is followed by successful writes
+type byteFaultSink struct{ *faultSink }
+
+func (s byteFaultSink) WriteByte(c byte) error {
+	_, err := s.faultSink.Write([]byte{c})
+	return err
+}
+
 type sinkCase struct {
 	Op     string   `json:"op"`
 	Writer string   `json:"writer"` // xz | lzma | lzma2
@@ -53,6 +63,7 @@ type sinkCase struct {
 	Cfg    string   `json:"cfg"`
 	Hist   []string `json:"history"` // "w<hex>", "f", "c"
 	K      int      `json:"fail_at_sink_call"`
+	Byte   bool     `json:"sink_is_byte_writer,omitempty"`
 	Mode   int      `json:"mode"`
 }
 
@@ -62,14 +73,18 @@ type wcloser interface {
 }
 
 // runSinkHistory drives one writer over a history against a faulty sink.
-func runSinkHistory(writer string, mk func(w io.Writer) (wcloser, error), hist []string, s *faultSink) (calls []callRes, newErr error, panicked string) {
+func runSinkHistory(writer string, mk func(w io.Writer) (wcloser, error), hist []string, s *faultSink, byteSink bool) (calls []callRes, newErr error, panicked string) {
 	calls = make([]callRes, 0, len(hist))
 	defer func() {
 		if p := recover(); p != nil {
 			panicked = fmt.Sprint(p)
 		}
 	}()
-	w, err := mk(s)
+	var sink io.Writer = s
+	if byteSink {
+		sink = byteFaultSink{s}
+	}
+	w, err := mk(sink)
 	if err != nil {
 		return nil, err, ""
 	}
@@ -132,7 +147,7 @@ func (f *failingSource) Read(p []byte) (int, error) {
 
 // C09: I/O failures are never masked.
 func checkC09(a *checkArgs, r *Result) error {
-	r.Rule = "writer side: base histories (xz multi-block, LZMA2 with Flush, classic LZMA on plain and ByteWriter sinks) x every index k of the sink's Write calls x {fail once, fail forever, partial write + fail once, partial + forever}; oracle: no panic (also in the calls issued after the failure, incl. Close), some call returns non-nil when the fault was reached, all-nil only with a complete decodable stream. Reader side: valid streams x every source offset k x {error alone, error together with data}; oracle: open or a Read returns the injected error (errors.Is), never a clean end. Exhaustive per base case. Non-trivial: the fault was reached; distinct by (case, k, mode)."
+	r.Rule = "writer side: base histories (xz multi-block, LZMA2 with Flush, classic LZMA on plain and ByteWriter sinks) x every index k of the sink's Write calls x {fail once, fail forever, partial write + fail once, partial + forever} (ByteWriter sinks: one call per stream byte, every k up to 400 and about 2000 sampled later ones, fail once / forever); oracle: no panic (also in the calls issued after the failure, incl. Close), some call returns non-nil when the fault was reached, all-nil only with a complete decodable stream. Reader side: valid streams x every source offset k x {error alone, error together with data}; oracle: open or a Read returns the injected error (errors.Is), never a clean end. Exhaustive per base case. Non-trivial: the fault was reached; distinct by (case, k, mode)."
 	r.Exhaustive = true
 	rng := rand.New(rand.NewSource(a.seed))
 	nbase := 30
@@ -144,6 +159,7 @@ func checkC09(a *checkArgs, r *Result) error {
 		mk                func(w io.Writer) (wcloser, error)
 		hist              []string
 		data              []byte
+		byteSink          bool
 	}
 	var bases []base
 	for i := 0; i < nbase; i++ {
@@ -189,7 +205,7 @@ func checkC09(a *checkArgs, r *Result) error {
 				data = append(big, data...)
 			}
 			cfg := c.config()
-			bases = append(bases, base{"xz", fmt.Sprintf("xz/%d", i), c.String(), func(w io.Writer) (wcloser, error) { return cfg.NewWriter(w) }, hist, data})
+			bases = append(bases, base{"xz", fmt.Sprintf("xz/%d", i), c.String(), func(w io.Writer) (wcloser, error) { return cfg.NewWriter(w) }, hist, data, false})
 		case 1:
 			t := lclppb[rng.Intn(len(lclppb))]
 			cfg := lzma.Writer2Config{Properties: &lzma.Properties{LC: t[0], LP: t[1], PB: t[2]}, DictCap: []int{4096, 65536}[rng.Intn(2)], BufSize: 4096}
@@ -199,14 +215,24 @@ func checkC09(a *checkArgs, r *Result) error {
 				hist = append([]string{"w" + hxe(big)}, hist...)
 				data = append(big, data...)
 			}
-			bases = append(bases, base{"lzma2", fmt.Sprintf("lzma2/%d", i), fmt.Sprintf("%+v dict%d", *cfg.Properties, cfg.DictCap), func(w io.Writer) (wcloser, error) { return cfg.NewWriter2(w) }, hist, data})
+			bases = append(bases, base{"lzma2", fmt.Sprintf("lzma2/%d", i), fmt.Sprintf("%+v dict%d", *cfg.Properties, cfg.DictCap), func(w io.Writer) (wcloser, error) { return cfg.NewWriter2(w) }, hist, data, false})
 		default:
 			cfg := lzma.WriterConfig{DictCap: 4096, EOSMarker: true}
 			if rng.Intn(2) == 0 {
 				cfg.SizeInHeader, cfg.Size, cfg.EOSMarker = true, int64(len(data)), rng.Intn(2) == 0
 			}
-			bases = append(bases, base{"lzma", fmt.Sprintf("lzma/%d", i), fmt.Sprintf("sizeInHeader=%v marker=%v", cfg.SizeInHeader, cfg.EOSMarker), func(w io.Writer) (wcloser, error) { return cfg.NewWriter(w) }, hist, data})
+			// every other classic case writes to a sink that is an io.ByteWriter itself
+			bs := (i/3)%2 == 0
+			bases = append(bases, base{"lzma", fmt.Sprintf("lzma/%d", i), fmt.Sprintf("sizeInHeader=%v marker=%v bytesink=%v", cfg.SizeInHeader, cfg.EOSMarker, bs), func(w io.Writer) (wcloser, error) { return cfg.NewWriter(w) }, hist, data, bs})
 		}
+	}
+	{
+		// corpus F18: a transient failure in the header of an uncompressed chunk, then more calls up to Close
+		rd := genRandom(rand.New(rand.NewSource(18)), 180000)
+		d2, d3 := genText(rand.New(rand.NewSource(19)), 63), genText(rand.New(rand.NewSource(20)), 2500)
+		cfg := lzma.Writer2Config{Properties: &lzma.Properties{LC: 0, LP: 2, PB: 4}, DictCap: 65536, BufSize: 4096}
+		bases = append(bases, base{"lzma2", "corpus/F18", "lc0 lp2 pb4 dict65536", func(w io.Writer) (wcloser, error) { return cfg.NewWriter2(w) },
+			[]string{"w" + hxe(rd), "w" + hxe(d2), "f", "w" + hxe(d3), "c"}, append(append(append([]byte{}, rd...), d2...), d3...), false})
 	}
 	type job struct {
 		b    base
@@ -215,13 +241,29 @@ func checkC09(a *checkArgs, r *Result) error {
 	var jobs []job
 	for _, b := range bases {
 		s := &faultSink{}
-		_, nerr, pan := runSinkHistory(b.writer, b.mk, b.hist, s)
+		_, nerr, pan := runSinkHistory(b.writer, b.mk, b.hist, s, b.byteSink)
 		if nerr != nil || pan != "" {
 			r.Violate("counterexample", "fault-free run fails "+b.writer, sinkCase{Op: "sink-fault", Writer: b.writer, Name: b.name, Cfg: b.cfg, Hist: b.hist}, fmt.Sprint(nerr, pan))
 			continue
 		}
 		total := s.calls
 		r.Add("sink_calls_"+b.writer, total)
+		if b.byteSink {
+			// one sink call per stream byte: every k up to 400 (header, first operations) and a sample of
+			// the later ones; a one-byte write has no partial form (modes 0 and 1 only)
+			r.Add("sink_calls_bytesink", total)
+			step := 1
+			if total > 2400 {
+				step = total / 2000
+			}
+			for k := 1; k <= total; k++ {
+				if k > 400 && step > 1 && (k+i0(b.name))%step != 0 {
+					continue
+				}
+				jobs = append(jobs, job{b, k, 0}, job{b, k, 1})
+			}
+			continue
+		}
 		for k := 1; k <= total; k++ {
 			for m := 0; m < 4; m++ {
 				jobs = append(jobs, job{b, k, m})
@@ -237,8 +279,11 @@ func checkC09(a *checkArgs, r *Result) error {
 			defer wg.Done()
 			defer func() { <-sem }()
 			s := &faultSink{k: j.k, mode: j.m}
-			cs := sinkCase{Op: "sink-fault", Writer: j.b.writer, Name: j.b.name, Cfg: j.b.cfg, Hist: j.b.hist, K: j.k, Mode: j.m}
-			calls, nerr, pan := runSinkHistory(j.b.writer, j.b.mk, j.b.hist, s)
+			cs := sinkCase{Op: "sink-fault", Writer: j.b.writer, Name: j.b.name, Cfg: j.b.cfg, Hist: j.b.hist, K: j.k, Mode: j.m, Byte: j.b.byteSink}
+			calls, nerr, pan := runSinkHistory(j.b.writer, j.b.mk, j.b.hist, s, j.b.byteSink)
+			if j.b.byteSink {
+				r.Inc("writer_lzma_bytesink")
+			}
 			r.Count(fmt.Sprint(j.b.name, j.k, j.m), s.triggered)
 			r.Inc("writer_" + j.b.writer)
 			if pan != "" {
@@ -280,7 +325,14 @@ func checkC09(a *checkArgs, r *Result) error {
 				}
 				if c.Err != "nil" {
 					anyErr = true
-					break // the contract speaks about calls up to and including the first error; later calls only must not panic
+					// the contract speaks about calls up to and including the first error; later calls only must not panic
+					for _, c2 := range calls[ci+1:] {
+						if c2.Err == "Panic" {
+							r.Violate("counterexample", fmt.Sprintf("panic writer=%s: %s", j.b.writer, truncate(c2.Panic, 60)), cs, "a call issued after the reported sink failure panicked: "+c2.Panic)
+							return
+						}
+					}
+					break
 				}
 			}
 			if s.triggered && !anyErr {
@@ -385,6 +437,15 @@ func checkC09(a *checkArgs, r *Result) error {
 	wg.Wait()
 	_ = xz.CRC32
 	return nil
+}
+
+// i0: a small offset derived from the case name, so that sampled fault positions differ between cases
+func i0(name string) int {
+	n := 0
+	for _, c := range name {
+		n += int(c)
+	}
+	return n
 }
 
 func init() { checks["C09"] = checkC09 }
